@@ -1771,7 +1771,8 @@ static void *peg_unmarshal(JanetMarshalContext *ctx) {
             case RULE_READINT:
                 /* [ width | (endianness << 5) | (signedness << 6), tag ] */
                 if (i + 1 >= blen) goto bad;
-                if (rule[1] > JANET_MAX_READINT_WIDTH) goto bad;
+                /* the operand is the width with the signedness (0x10) and endianness (0x20) flags */
+                if ((rule[1] & 0xF) > JANET_MAX_READINT_WIDTH || (rule[1] & ~0x3Fu)) goto bad;
                 i += 3;
                 break;
             case RULE_NTH:
